@@ -39,6 +39,11 @@ def gen_attr_expr(rng, params, klass):
         if rng.random() < 0.2:
             e = ("neg", e)
         return e
+    if klass == "quotient":
+        # a quotient with a parameter-dependent denominator (never zero: |p| <= 4) and no product anywhere
+        den = ("bin", "+", num(rng.randint(20, 40)), rng.choice(p))
+        numr = rng.choice([("bin", "+", num(rng.randint(1, 9)), rng.choice(p)), rng.choice(p), num(rng.randint(1, 9))])
+        return ("bin", "/", numr, den)
     if klass == "multilinear":
         # product of (at least) three different parameters: every second derivative vanishes at p = 0
         e = ("bin", "*", ("bin", "*", p[0], p[1]), p[2])
@@ -64,6 +69,9 @@ def gen_case(rng, force_affine=None):
     if multilinear:
         nparam = rng.randint(3, 4)
         tags.add("workload:multilinear-only")
+    quotient_only = (not force_affine) and (not multilinear) and rng.random() < 0.2
+    if quotient_only:
+        tags.add("workload:quotient-only")
     params = ["p%d" % (i + 1) for i in range(nparam)]
     decls, ref = [], []       # ref: list of dicts name,list,type,dims,attrs{attr: expr}
     for pn in params:
@@ -89,6 +97,8 @@ def gen_case(rng, force_affine=None):
         klasses = ["literal", "affine"] if force_affine else ["literal", "affine", "nonaffine"]
         if multilinear:
             klasses = ["literal", "multilinear"]
+        if quotient_only:
+            klasses = ["literal", "quotient"]
         for a in ("start", "min", "max", "nominal"):
             if rng.random() < 0.45:
                 if typ == "Boolean":
